@@ -23,15 +23,39 @@ def steps_for_graph(gid, ops, mask, bl, z, extra=()):
     return st
 
 
+def same_size_base_levels(rng, g, mask, bl):
+    """another base-level set of the same size (disjoint from the mask) when one exists"""
+    n = gen.grid_size(g)
+    free = [i for i in range(n) if not mask[i]]
+    if len(free) <= len(bl):
+        return list(bl)
+    for _ in range(10):
+        cand = rng.sample(free, len(bl))
+        if set(cand) != set(bl):
+            return cand
+    return list(bl)
+
+
 def resolver_cases(seed, count, max_side, tag, seqs=None, families=None):
     """One case = one world x every resolver variant (one rank domain: variants are comparable)."""
     rng = random.Random(seed)
     seqs = seqs or gen.RESOLVER_SEQS
     for i in range(count):
         g, z, mask, bl = _world(rng, max_side, family=rng.choice(families) if families else None)
+        # the same objects then live on: other fields, other base levels / masks, the first field again
+        z2 = gen.rand_field(rng, g, rng.choice(["tied", "bowl", "distinct", "tied3"]))
+        mask2, bl2 = gen.rand_mask_bl(rng, g)
+        if rng.random() < 0.5:
+            mask2 = mask
+            bl2 = same_size_base_levels(rng, g, mask, bl)
         steps = []
         for k, ops in enumerate(seqs):
             steps += steps_for_graph(k, ops, mask, bl, z)
+            steps.append(dict(op="update", g=k, z=z2))
+            steps.append(dict(op="mask", g=k, m=mask2))
+            steps.append(dict(op="bl", g=k, bl=bl2))
+            steps.append(dict(op="update", g=k, z=z2))
+            steps.append(dict(op="update", g=k, z=z))
             steps.append(dict(op="drop", g=k))
         yield flow_case("%s-%d-%d" % (tag, seed, i), g, steps)
 
@@ -73,8 +97,14 @@ def router_cases(seed, count, max_side, tag, multi=False):
                     [gen.op_single(), gen.op_mst("kruskal", "carve"), gen.op_multi(rng.choice([0, 4, 8, 120]))]]
         else:
             seqs = [[gen.op_single()], [gen.op_pflood(), gen.op_single()]]
+        bl2 = same_size_base_levels(rng, g, mask, bl)
+        mask2, bl3 = gen.rand_mask_bl(rng, g)
         for k, ops in enumerate(seqs):
             steps += steps_for_graph(k, ops, mask, bl, z)
+            # the object lives on: base levels moved (same number), then another mask
+            steps += [dict(op="bl", g=k, bl=bl2), dict(op="update", g=k, z=z),
+                      dict(op="mask", g=k, m=mask2), dict(op="bl", g=k, bl=bl3), dict(op="update", g=k, z=z),
+                      dict(op="mask", g=k, m=mask), dict(op="bl", g=k, bl=bl)]
             if multi:
                 # the exponent is changed between successive updates on the same graph object
                 midx = [j for j, o in enumerate(ops) if o["k"] == "multi"][0]
@@ -161,12 +191,19 @@ def history_cases(seed, count, max_side, tag, thr=None):
             steps += visit(0, configs[ci], False)
             if rng.random() < 0.3:   # repeat the very same call
                 steps.append(dict(op="update", g=0, z=configs[ci]["z"]))
-        steps.append(dict(op="new", g=1, ops=copy.deepcopy(ops)))
-        for c in configs:
-            steps += visit(1, c, True)
+        # fresh objects, each built directly with the parameters of one configuration
+        for fi, c in enumerate(configs, 1):
+            fops = copy.deepcopy(ops)
+            for j in midx:
+                fops[j]["p"] = c["p"] if j == midx[-1] else fops[j]["p"]
+            steps.append(dict(op="new", g=fi, ops=fops))
+            steps += [dict(op="mask", g=fi, m=c["mask"]), dict(op="bl", g=fi, bl=sorted(c["bl"])),
+                      dict(op="update", g=fi, z=c["z"]), dict(op="acc", g=fi, src=[1] * n)]
+            if single:
+                steps.append(dict(op="basins", g=fi))
         for c in configs:
             steps += visit(0, c, True)
-        steps += [dict(op="drop", g=0), dict(op="drop", g=1)]
+        steps += [dict(op="drop", g=gi) for gi in range(len(configs) + 1)]
         yield flow_case("%s-%d-%d" % (tag, seed, i), g, steps)
 
 
